@@ -3,6 +3,7 @@ import copy
 import json
 import multiprocessing
 import os
+import time
 import traceback
 
 from . import impl, paths
@@ -73,7 +74,7 @@ def restrict(basis, rng, nmax):
 
 # ------------------------------------------------------------------ parallel work
 def _worker(args):
-    prop, tier, seed, fn_mod, fn_name, chunk, idx, boost = args
+    prop, tier, seed, fn_mod, fn_name, chunk, idx, boost, deadline = args
     from . import check, model
     import importlib
     ctx = check.Ctx(prop, tier, seed * 1000 + idx)
@@ -84,7 +85,11 @@ def _worker(args):
         except model.ModelUnavailable:
             ctx.model = None
         fn = getattr(importlib.import_module(fn_mod), fn_name)
-        for item in chunk:
+        for k, item in enumerate(chunk):
+            if time.time() > deadline:
+                # wall budget of this stream used up: the remaining items are not explored (counted in the evidence)
+                ctx.extra['items_skipped_after_wall_budget'] = len(chunk) - k
+                break
             fn(ctx, item)
     except model.ModelUnavailable as e:
         ctx.extra['model_died'] = str(e)
@@ -107,8 +112,14 @@ def parallel(ctx, fn, items, nproc=None):
     if not items:
         return
     nproc = nproc or min(14, max(1, len(items)))
+    import random as _random
+    _random.Random(ctx.seed).shuffle(items)       # so that a wall-budget cut skips a random sample, not the end of the alphabet
     chunks = [items[i::nproc] for i in range(nproc)]
-    args = [(ctx.prop, ctx.tier, ctx.seed, fn.__module__, fn.__name__, ch, i, ctx.boost) for i, ch in enumerate(chunks) if ch]
+    # wall budget per stream: the chunks are interleaved (items[i::nproc]), so what is skipped when time is up is a
+    # uniform tail of every worker's share, never a particular region of the input space
+    wall = float(os.environ.get('VERIF_STREAM_WALL_S', '1500' if ctx.tier == 'thorough' else '600'))
+    deadline = time.time() + wall
+    args = [(ctx.prop, ctx.tier, ctx.seed, fn.__module__, fn.__name__, ch, i, ctx.boost, deadline) for i, ch in enumerate(chunks) if ch]
     with multiprocessing.get_context('fork').Pool(len(args)) as pool:
         results = pool.map(_worker, args)
     for r in results:
